@@ -445,5 +445,20 @@ theorem step_ok {s s' : St} (g : Good s) {op : Op} (e : step s op = some s') : S
       exact ok_of (eff_fromPrintf h V.1 V.2.2.2.2.1 V.2.1 (T _ (Nat.le_refl _)) e)
         (by intro x hx; simp only [Spec.newVal, Option.some.injEq] at hx; exact hx)
     · cases e
+  | printfO v out =>
+    simp only [step] at e
+    split at e
+    · rename_i c; have V := valid_facts c
+      simp only [Option.map_eq_some_iff] at e
+      obtain ⟨⟨s2, r⟩, e, rfl⟩ := e
+      exact ok_of (eff_printfOut h V.1 e).1 (by intro x hx; simp only [Spec.newVal, Option.some.injEq] at hx; exact hx)
+    · cases e
+  | fromOut v out =>
+    simp only [step] at e
+    split at e
+    · rename_i c; have V := valid_facts c
+      exact ok_of (eff_fromOut h V.1 V.2.2.2.2.1 V.2.1 (T _ (Nat.le_refl _)) e)
+        (by intro x hx; simp only [Spec.newVal, Option.some.injEq] at hx; exact hx)
+    · cases e
 
 end Nstd.Str
